@@ -365,6 +365,7 @@ def c03(tier):
            "widths": [len(next(iter(defs.values()))["widths"]) - 1]}
     recs = run_harness(binary, "check", inp)
     positions = 0
+    hung = 0
     for r in recs:
         g = groups[r["g"]]
         if r["q"] >= 0:
@@ -375,10 +376,11 @@ def c03(tier):
                 for k, c in enumerate(s, 1):
                     ck.evaluations += 1
                     positions += 1
-                    cid = dict(case_id(g, r["w"], r["q"], r["d"], defs), fault={"k": k, "kind": kind}, fault_free=base, observed=c, calls=r["n"])
-                    if c == "H":
-                        continue  # termination under faults is C15's business
-                    if k <= (r.get("sn", 0) if kind.startswith("SQL") else r["n"]) and c != base:
+                    cid = dict(case_id(g, r["w"], r["q"], r["d"], defs), fault={"k": k, "kind": kind}, fault_free=base, observed=c, calls=r.get("n", 0))
+                    if c == "H" or base == "H":
+                        hung += 1
+                        continue  # termination (also under faults) is C15's business
+                    if k <= (r.get("sn", 0) if kind.startswith("SQL") else r.get("n", 0)) and c != base:
                         ck.nontrivial.add((r["g"], r["q"], r["d"], kind, k))
                     if c == "X":
                         ck.violation("result carries an error and says allowed", cid)
@@ -396,13 +398,17 @@ def c03(tier):
                         ck.evaluations += 1
                         cid = {"family": g["f"], "strict": g["st"], "stored": [defs[g["f"]]["U"][j - 1] for j in g["s"]],
                                "batch_entry": i, "transport": name, "fault_k": k, "fault_free": base, "observed": s}
-                        if c == "X":
+                        if c == "H" or base == "H":
+                            hung += 1
+                        elif c == "X":
                             ck.violation("batch entry carries an error and says allowed", cid)
                         elif c == "!":
                             pass
                         elif i < len(base) and c == "I" and base[i] != "I":
                             ck.violation("storage failure turned a denied batch entry into allowed", cid)
     ck.extra["fault_positions"] = positions
+    if hung and not ck.violations:
+        raise Inconclusive("%d check(s) did not return within 10 s; termination is decided by C15" % hung)
     wide_faults(ck, binary, tier)
     ck.rule = ("for every sampled case the fault-free run is counted (N storage calls), then call k = 1..N+1 fails once, "
                "persistently, and with context.Canceled; at the deepest request depth the same sweep one layer down, on the SQL statements inside the "
